@@ -482,6 +482,30 @@ theorem le_foldl_max (l : List Nat) (init x : Nat) (h : x ≤ init ∨ x ∈ l) 
       · exact Or.inl (Nat.le_max_right _ _)
       · exact Or.inr h
 
+theorem foldl_max_init_or_mem (l : List Nat) (init : Nat) : l.foldl max init = init ∨ l.foldl max init ∈ l := by
+  induction l generalizing init with
+  | nil => exact Or.inl rfl
+  | cons x xs ih =>
+    simp only [List.foldl_cons]
+    rcases ih (max init x) with h | h
+    · rw [h]
+      by_cases hx : init ≤ x
+      · exact Or.inr (by rw [Nat.max_eq_right hx]; simp)
+      · exact Or.inl (Nat.max_eq_left (by omega))
+    · exact Or.inr (List.mem_cons_of_mem _ h)
+
+/-- the maximum of a non-empty list of naturals is one of them -/
+theorem foldl_max_mem (l : List Nat) (hne : l ≠ []) : l.foldl max 0 ∈ l := by
+  rcases foldl_max_init_or_mem l 0 with h | h
+  · cases l with
+    | nil => exact absurd rfl hne
+    | cons x xs =>
+      have hx : x ≤ (x :: xs).foldl max 0 := le_foldl_max _ _ _ (Or.inr (by simp))
+      rw [h] at hx ⊢
+      have : x = 0 := by omega
+      rw [this]; simp
+  · exact h
+
 theorem axisOf_int [DecidableEq α] (lt : α → α → Bool) (v : α → Int) (sd : Option Nat) (ids : List α) (ax : Axis α)
     (h : axisOf lt (some v) false sd ids = .ok ax) :
     ax.names = none ∧ ax.index = (fun x => (v x).toNat) ∧ (∀ x ∈ ids, 0 ≤ v x) ∧ ids ≠ [] ∧
@@ -532,6 +556,23 @@ theorem keys_typedEdges [DecidableEq α] (lt : α → α → Bool) (rows : List 
   · have hs' : f.sumDuplicates = false := by simpa using hs
     simp only [hs', Bool.false_eq_true, if_false]
     rw [mem_firstRows_key, h0]
+
+/-- without `shape` and without reindexing the dimension is the largest identifier plus one -/
+theorem axisOf_int_minimal [DecidableEq α] (lt : α → α → Bool) (v : α → Int) (ids : List α) (ax : Axis α)
+    (h : axisOf lt (some v) false none ids = .ok ax) : ∃ x ∈ ids, (v x).toNat + 1 = ax.n := by
+  obtain ⟨_, _, _, hne, hdim, _⟩ := axisOf_int lt v none ids ax h
+  rw [hdim]
+  unfold specDim
+  simp only
+  have hne' : (ids.map v).map Int.toNat ≠ [] := by
+    intro h0
+    apply hne
+    cases ids with
+    | nil => rfl
+    | cons _ _ => simp at h0
+  obtain ⟨z, hz, hzm⟩ := List.mem_map.mp (foldl_max_mem _ hne')
+  obtain ⟨x, hx, rfl⟩ := List.mem_map.mp hz
+  exact ⟨x, hx, by rw [hzm]⟩
 
 /-! ### the two matrices of `from_edge_array` -/
 
